@@ -208,6 +208,15 @@ def _feat(X2, intervals):
 
 
 def oracle_forest(case, ctx):
+    # worker threads: the same in a shard process (where joblib would silently run sequentially)
+    # and in a replay; n_jobs then really splits the work
+    import joblib
+
+    with joblib.parallel_backend("threading"):
+        return _oracle_forest(case, ctx)
+
+
+def _oracle_forest(case, ctx):
     n, t = case["n_train"], case["t"]
     X3 = panelpool.panel_values(case["seed"], n, 1, t)
     Xa = panelpool.panel_values(case["seed"] + 3, case["n_apply"], 1, t)
@@ -420,7 +429,7 @@ def forest_cases(draw):
         "n_train": draw(st.integers(6, 14)), "n_apply": draw(st.integers(1, 8)), "t": draw(st.integers(8, 40)),
         "n_classes": draw(st.integers(2, 3)), "label_kind": draw(st.sampled_from(["int", "int_gap", "str"])),
         "n_estimators": draw(st.integers(1, 6)), "rs": draw(st.integers(0, 1000)), "seed": draw(st.integers(0, 10 ** 6)),
-        "n_jobs": draw(st.sampled_from([1, 1, 2])),
+        "n_jobs": draw(st.sampled_from([1, 1, 2, 3, None])),
         "level": draw(st.sampled_from([0.0, 0.0, 1e3, 1e6, 1e7])), "refit_other_params": draw(st.integers(0, 2)) == 0,
         "int_panel": draw(st.integers(0, 2)) == 0,
     }
